@@ -59,6 +59,8 @@ let c04_ok (input : M.byte list) (impl : string) : bool =
       && get "t" f = hex_of_bytes sh.M.s_target
       && get "v" f = (if sh.M.s_minor then "1" else "0")
       && (Printf.sprintf "cl=%s ch=%s cc=%s h=%s" (get "cl" f) (get "ch" f) (get "cc" f) (get "h" f)) = hdrs_str h
+      (* every Content-Length line is reported through the content-length value: an accepted head has only valid, agreeing ones *)
+      && M.cl_consistent_rfc (M.sfield_pairs sh.M.s_fields)
 
 (* C01: every text piece reported for an accepted request (method, target and its parts) is a substring of the input
    (Spec/Substr.v `sublist`), compared on the hex form at byte alignment *)
